@@ -484,3 +484,8 @@ BOUNDS = {
 }
 OUTSIDE = ["__context__/__cause__ chains", "4 entries", "exits that suspend (covered by C17/C18)"]
 NONTRIVIAL_RULE = ">=2 entries on the stack (histories: >=1 registration and >=2 operations)"
+
+MANIFEST = {
+    "text": 'Stacks of entries (11 kinds x 5 behaviours, symbolic) compared with contextlib.AsyncExitStack and with nested async-with built by recursion: exit log with the in-flight exception each exit received and the outcome; failing enters; histories of register/aclose/pop_all/with-block: every exit exactly once overall. Nothing is claimed outside the bounds listed in the evidence file.',
+    "note": 'Trusted: CrossHair 0.0.110 (with short-circuiting off and a refined callable() model), z3 5.1.0, the harness oracles. __context__ chains are not compared.',
+}
